@@ -1,4 +1,5 @@
 import SyneTune.Lemmas.TunerCkpt
+import SyneTune.Lemmas.TunerWitness
 /-
 C20 (loop side) — a checkpoint exists whenever a trial is resumed or warm-started from it.
 Property theorems only; model `Model/Tuner.lean` (incl. the generic `TrialBackend.stop_trial`,
@@ -8,28 +9,6 @@ Scheduler-side parts (which schedulers satisfy `K2Ok` / `SrcOk`) are separate.
 -/
 namespace SyneTune.C20Loop
 open SyneTune SyneTune.Tuner
-
-theorem stopDel_from (s : LState) (a : Ans) (hp : s.pc = .stopCmd) (hw : (next s a).pc = .stopDel) :
-    s.cfg.deleteCkpt = true ∧ pending (next s a) = .delete s.cur.tid := by
-  cases a with
-  | ret =>
-    simp only [next, hp] at hw ⊢
-    by_cases hdc : s.cfg.deleteCkpt = true
-    · simp only [hdc, if_true]
-      exact ⟨trivial, rfl⟩
-    · simp [hdc] at hw
-  | _ => simp [next, hp, raiseFin] at hw
-
-theorem finStopDel_from (s : LState) (a : Ans) (hp : s.pc = .finStop) (hw : (next s a).pc = .finStopDel) :
-    s.cfg.deleteCkpt = true ∧ pending (next s a) = .delete s.t := by
-  cases a with
-  | ret =>
-    simp only [next, hp] at hw ⊢
-    by_cases hdc : s.cfg.deleteCkpt = true
-    · simp only [hdc, if_true]
-      exact ⟨trivial, rfl⟩
-    · simp [hdc] at hw
-  | _ => simp [next, hp, exitRaise] at hw
 
 /-- **A checkpoint is deleted only** (a) by `stop_trial` right after the scheduler's STOP of that
 trial was carried out (`backend.stop_trial(t)` has just returned and `delete_checkpoints` is
@@ -134,5 +113,38 @@ theorem pbt_partial (c : Cfg) (as : List Ans)
   · exact h1 h3
   · exact h2 h3
   · rw [hp] at h3; exact nomatch h3.1
+
+/-- **F5 — warm start from a deleted checkpoint.** `delete_checkpoints=True`, two workers.  One
+poll delivers a result of trial 1, decided STOP (a PBT scheduler now queues "clone trial 0"), and
+a result of trial 0, decided STOP as well (it reached `max_t`).  `stop_trial` deletes both
+checkpoints; the next suggestion starts trial 2 from the checkpoint of trial 0.  The contracts
+B, K and `K2Ok` hold along the run, yet `copy_checkpoint(0, 2)` is the pending call and the
+checkpoint of trial 0 has been deleted.  (What fails is `SrcOk`: the scheduler names a source it
+has itself stopped in between.) -/
+theorem pbt_counterexample :
+    Witness.pbtCfg.deleteCkpt = true ∧
+    Along BOk (init Witness.pbtCfg) Witness.pbtPrefix ∧
+    Along KOk (init Witness.pbtCfg) Witness.pbtPrefix ∧
+    Along K2Ok (init Witness.pbtCfg) Witness.pbtPrefix ∧
+    Along NCOk (init Witness.pbtCfg) Witness.pbtPrefix ∧
+    pending (run (init Witness.pbtCfg) Witness.pbtPrefix) = .copy 0 2 ∧
+    0 ∈ (run (init Witness.pbtCfg) Witness.pbtPrefix).deleted := by
+  refine ⟨rfl, along_of bOk_of (by decide +kernel), along_of kOk_of (by decide +kernel),
+    along_of k2Ok_of (by decide +kernel), along_of ncOk_of (by decide +kernel), ?_, ?_⟩ <;> decide +kernel
+
+/-- the hypothesis that `pbt_partial` adds is exactly what the witness breaks -/
+example : alongB srcOkB (init Witness.pbtCfg) Witness.pbtPrefix = false := by decide +kernel
+
+/-! ### concrete instances -/
+
+/-- the deletions of the witness run, in order: by `stop_trial` (1, then 0), then the final sweep of
+`stop_all` over all trials -/
+example : (run (init Witness.pbtCfg) (Witness.pbtPrefix ++ Witness.pbtRest)).deleted.reverse = [1, 0, 0, 1, 2] := by
+  decide +kernel
+
+/-- `delete_only_when` at the first deletion of the witness run (31 answers in): case (a) -/
+example : pending (step (run (init Witness.pbtCfg) (Witness.pbtPrefix.take 30)) .ret) = .delete 1 ∧
+    (run (init Witness.pbtCfg) (Witness.pbtPrefix.take 30)).pc = .stopCmd := by
+  decide +kernel
 
 end SyneTune.C20Loop
